@@ -80,8 +80,11 @@ _wrap_outcomes(TagTT, rec.TT)
 
 
 class Impl:
-    def __init__(self, top, observers=(), sinks=(), tagger=(frozenset(), frozenset()), skippair=True, stream_sink=None, dict_sink=None, tbtr=None, inner_tagger=frozenset()):
+    def __init__(self, top, observers=(), sinks=(), tagger=(frozenset(), frozenset()), skippair=True, stream_sink=None, dict_sink=None, tbtr=None, inner_tagger=frozenset(), branch=None):
         self.inner_tagger = inner_tagger
+        # (new, gone) of a Tagger that sits in front of observers[0] ONLY (a sibling sees the
+        # reporter's own tags)
+        self.branch = branch
         self.retained = []  # (tag set object handed to a consumer, frozen copy at that time)
         self.top = top
         self.observers = list(observers)  # recorders with .seen
@@ -158,6 +161,9 @@ def build(name):
     if name == "TFR(Tagger(Ext))":
         e = TagExt()
         return Impl(ThreadsafeForwardingResult(Tagger(e, {"x"}, set()), _sem()), [e], [e], inner_tagger=frozenset("x"))
+    if name == "Multi(Tagger(Ext),Ext)":
+        e1, e2 = TagExt(), TagExt()
+        return Impl(MultiTestResult(Tagger(e1, {"x"}, {"a"}), e2), [e1, e2], [e1, e2], branch=(frozenset("x"), frozenset("a")))
     if name == "Multi(ETSD>STE>Ext)":
         e = TagExt()
         return Impl(MultiTestResult(ExtendedToStreamDecorator(StreamToExtendedDecorator(e))), [e], [e])
@@ -186,6 +192,7 @@ CONFIGS = (
     "ETOD(ETOD(Ext))",
     "TFR(Tagger(Ext))",
     "Multi(ETSD>STE>Ext)",
+    "Multi(Tagger(Ext),Ext)",
 )
 
 # where the observed tags are a function of forwarded tag calls that only happen inside tests
@@ -193,11 +200,12 @@ CONFIGS = (
 
 
 class Model:
-    __slots__ = ("G", "L", "in_test", "has_outcome", "tests", "runs")
+    __slots__ = ("G", "L", "LB", "in_test", "has_outcome", "tests", "runs")
 
     def __init__(self):
         self.G = frozenset()
         self.L = None
+        self.LB = None  # the tags in effect behind a branch Tagger
         self.in_test = False
         self.has_outcome = False
         self.tests = 0
@@ -207,7 +215,7 @@ class Model:
         return self.L if self.in_test else self.G
 
     def key(self):
-        return (self.G, self.L, self.in_test, self.has_outcome, self.runs > 0, self.tests)
+        return (self.G, self.L, self.LB, self.in_test, self.has_outcome, self.runs > 0, self.tests)
 
 
 T1 = PlaceHolder("t")
@@ -253,18 +261,22 @@ class System:
         name = op[0]
         problems = []
         expect_seen = None
+        expect_branch = None
         tg_new, tg_gone = impl.tagger
+        b_new, b_gone = impl.branch or (frozenset(), frozenset())
         try:
             if name == "startTestRun":
                 top.startTestRun()
                 m.G = frozenset()
                 m.L = None
+                m.LB = None
                 m.in_test = False
                 m.runs += 1
             elif name == "tags":
                 top.tags(set(op[1]), set(op[2]))
                 if m.in_test:
                     m.L = (m.L | op[1]) - op[2]
+                    m.LB = (m.LB | op[1]) - op[2]
                 else:
                     m.G = (m.G | op[1]) - op[2]
             elif name == "startTest":
@@ -272,6 +284,7 @@ class System:
                 m.in_test = True
                 m.has_outcome = False
                 m.L = (m.G | tg_new) - tg_gone
+                m.LB = (m.G | b_new) - b_gone
                 m.tests += 1
             elif name in ("addSuccess", "addFailure"):
                 if name == "addSuccess":
@@ -280,20 +293,24 @@ class System:
                     top.addFailure(T1, details={"d": text_content("x")})
                 m.has_outcome = True
                 expect_seen = m.L
+                expect_branch = m.LB
             elif name == "stopTest":
                 top.stopTest(T1)
                 m.in_test = False
                 m.L = None
+                m.LB = None
             elif name == "skippair":
                 # what unittest 3.12.1 emits for a skipped stdlib test: no startTest
                 top.addSkip(T1, "why")
                 top.stopTest(T1)
                 m.tests += 1
                 expect_seen = m.G
+                expect_branch = m.G  # (a Tagger adds its tags at startTest, which never came)
             elif name == "placeholder":
                 PlaceHolder("ph", tags={"p"}).run(top)
                 m.tests += 1
                 expect_seen = (m.G | {"p"} | tg_new) - tg_gone
+                expect_branch = ((m.G | b_new) - b_gone) | {"p"}
                 m.G = m.G - {"p"}
             else:
                 raise AssertionError(op)
@@ -310,7 +327,11 @@ class System:
                     problems.append(("current_tags", "current_tags == %r, model says %r" % (sorted(cur), sorted(m.current()))))
             if expect_seen is not None:
                 expect_seen = frozenset(expect_seen | impl.inner_tagger)
-                for o in impl.observers:
+                for oi, o in enumerate(impl.observers):
+                    if impl.branch is not None and oi == 0:
+                        if o.seen != [frozenset(expect_branch)]:
+                            problems.append(("observed-tags", "%s behind the Tagger saw tags %r at the outcome, expected %r" % (type(o).__name__, [sorted(s) for s in o.seen], sorted(expect_branch))))
+                        continue
                     if o.seen != [expect_seen]:
                         problems.append(("observed-tags", "%s saw tags %r at the outcome, reporter's tags were %r" % (type(o).__name__, [sorted(s) for s in o.seen], sorted(expect_seen))))
                 if impl.stream_sink is not None:
